@@ -128,14 +128,18 @@ Definition ho_step (conn_id : conn) (o : ho) (op : hop) (obs : hobs) : ho :=
             | _ => o
             end in
   let o2 := fold_left (ho_out conn_id) (fst obs) o1 in
-  let '(HSnap _ _ _ ss _ halted has_timeout) := snd obs in
+  let '(HSnap _ has_msg sink ss _ halted has_timeout) := snd obs in
   (* C05: while a wantlist is accepted and unresolved, the handler is either sending or has its start timer armed;
      after poll_close nothing is left unresolved *)
   let resolved := match ho_cur o2 with None => true | Some _ => false end in
   let ok5 := match op with
              | HPollClose _ => resolved
              | _ => if resolved || halted then true
-                    else match ss with SsRequestReceived _ _ => has_timeout | SsSending _ _ => true | _ => false end
+                    else match ss with
+                         | SsRequestReceived _ _ => has_timeout && has_msg       (* waiting for a stream, timer armed *)
+                         | SsSending _ _ => sink =? 2                           (* a stream is held and being flushed *)
+                         | _ => false
+                         end
              end in
   MkHo (ho_cur o2) (ho_streams o2) (ho_frames o2) halted (ho_ok14 o2) (ho_ok5 o2 && ok5).
 
@@ -145,9 +149,31 @@ Fixpoint ho_run (conn_id : conn) (o : ho) (ops : list hop) (obs : list hobs) : h
   | _, _ => o
   end.
 
+(* the environment's side of the contract (what the behaviour and libp2p-swarm guarantee): a SendWantlist only
+   when the handler's last report was Ready (or none yet); SetStream / AllocFailed only as the single answer to
+   an OutboundSubstreamRequest; after poll_close nothing but poll_close *)
+Fixpoint disciplined (ready open closed : bool) (ops : list hop) (obs : list hobs) : bool :=
+  match ops, obs with
+  | op :: ops', ob :: obs' =>
+      let ok := match op with
+                | HSendWantlist _ => ready && negb closed
+                | HSetStream | HAllocFailed => open && negb closed
+                | HPoll _ => negb closed
+                | _ => true
+                end in
+      let ready1 := match op with HSendWantlist _ => false | _ => ready end in
+      let open1 := match op with HSetStream | HAllocFailed => false | _ => open end in
+      let ready2 := fold_left (fun r o => match o with HReport RpReady => true | HReport _ => false | _ => r end) (fst ob) ready1 in
+      let open2 := fold_left (fun r o => match o with HOpenStream => true | _ => r end) (fst ob) open1 in
+      let closed2 := match op with HPollClose _ => true | _ => closed end in
+      ok && disciplined ready2 open2 closed2 ops' obs'
+  | _, _ => true
+  end.
+Definition is_disciplined (x : case) : bool := disciplined true false false (snd (fst x)) (snd x).
+
 Definition ho_final (x : case) : ho := ho_run (fst (fst x)) (MkHo None [] [] false true true) (snd (fst x)) (snd x).
-Definition oracle_C14 (x : case) : bool := ho_ok14 (ho_final x).
-Definition oracle_C05 (x : case) : bool := ho_ok5 (ho_final x).
+Definition oracle_C14 (x : case) : bool := if is_disciplined x then ho_ok14 (ho_final x) else true.
+Definition oracle_C05 (x : case) : bool := if is_disciplined x then ho_ok5 (ho_final x) else true.
 Definition oracle (x : case) : bool := oracle_C14 x && oracle_C05 x.
 
 Fixpoint ho_first_bad (proj : ho -> bool) (conn_id : conn) (i : N) (o : ho) (ops : list hop) (obs : list hobs) : option N :=
